@@ -873,8 +873,17 @@ Example hyps_hold_on_example :
         [[4;2;0;0];[2;4];[];[0;1;2;3;4];[3];[0;3;3;0]]
   | _ => False
   end.
-Proof. vm_compute. repeat constructor. Qed.
+Proof.
+  set (r := index false 100 ex_docs). vm_compute in r. subst r. cbv beta iota zeta.
+  repeat first [apply Forall_nil | apply Forall_cons | match goal with |- _ /\ _ => split end];
+    cbv beta; vm_compute; first [reflexivity | exact I].
+Qed.
 
+(* Assumption audit.  [init_inv] and [hyps_hold_on_example] are closed under the global context.
+   Every statement that mentions [step] / [run] inherits exactly the axioms of the DEFINITION [step]
+   (printed first as the baseline): they enter through [score_bits] (Flocq binary32 in Score/BM25.v, which
+   depends on the standard library's classical reals).  No proof in this file adds an assumption. *)
+Print Assumptions step.
 Print Assumptions init_inv.
 Print Assumptions step_inv.
 Print Assumptions run_inv.
